@@ -646,6 +646,22 @@ static void seq_mode(long count) {
       }
     }
   }
+  { /* definite strings followed by suffixes whose length, or whose length plus the payload, crosses 2^16: a length comparison done in
+     * a narrower type than size_t shows exactly there */
+    static unsigned char big_y[(1 << 17) + 16];
+    memset(big_y, 'x', sizeof big_y);
+    static const size_t slens[] = {24, 255, 256, 4096};
+    for (unsigned si = 0; si < 4; si++)
+      for (int text = 0; text < 2; text++) {
+        size_t sl = slens[si], xn = 0;
+        x[xn++] = (unsigned char)((text ? 0x60 : 0x40) | (sl < 256 ? 24 : 25));
+        if (sl >= 256) x[xn++] = (unsigned char)(sl >> 8);
+        x[xn++] = (unsigned char)sl;
+        for (size_t i = 0; i < sl; i++) x[xn++] = (unsigned char)('a' + i % 26);
+        const size_t pads[] = {65536 - xn - 1, 65536 - xn, 65536 - xn + 1, 65536 - sl - 1, 65536 - sl, 65536 - sl + 1, 65536 - sl / 2, 65535, 65536, 65537, 65536 + sl - 1, 65536 + sl, 131071, 131072};
+        for (unsigned pi = 0; pi < sizeof pads / sizeof *pads; pi++) suffix_case(x, xn, big_y, pads[pi]);
+      }
+  }
   for (long i = 0; i < count; i++) {
     size_t xn = gen_item(x, 2048, (int)vh_randn(5));
     suffix_case(x, xn, y, 0);
